@@ -67,6 +67,28 @@ CLAIMED["C16"] = dict(
     note=TRUST + " Items are abstract (traits, nominal types, impl headers, qualified references); generic impls are outside the placements.",
 )
 
+CLAIMED["C01"] = dict(
+    category="translation_validation",
+    technique="per-program translation validation with two Coq semantics (Sem/Src.v on the real typed source tree, Sem/GoSem.v on the real emitted Go AST) evaluated in coqc; both semantics validated against outputs recorded from real Go; general pass-correctness theorems open",
+    text='Every run compiles type-directed generated programs (probes in every position, pattern matrices called on value grids, closures, refs, vectors, trait objects, failing operations) and the 74 corpus programs with the real compiler, reads the real TAST and Go AST back and executes both in Coq; stdout and the way the program ends must agree, and corpus programs must reproduce the output recorded from real Go. The unbounded theorem (composition of pass correctness) is not proved; the claimed level is per-program validation with machine-checked executable semantics.',
+    design_ref="DESIGN.md §4 C01",
+    note=TRUST + " Sem/GoSem.v is a model of Go (slices immutable, no floats, one goroutine schedule); Sem/Src.v is the source-level meaning; both reproduce the recorded real-Go output of 63-66 corpus programs. This is validation per program, not a proof about all programs.",
+)
+CLAIMED["C08"] = dict(
+    category="translation_validation",
+    technique="per-program translation validation with two Coq semantics (Sem/Src.v on the real typed source tree, Sem/GoSem.v on the real emitted Go AST) evaluated in coqc; both semantics validated against outputs recorded from real Go; general pass-correctness theorems open",
+    text='Closure-focused programs in which each captured variable occurs in exactly one syntactic position of the closure body (match arms incl. default, while condition/body, if, nested closures, tuple, enum match, captured closures and trait objects) are compiled and the real TAST vs real Go AST behaviours compared in Coq. lift_correct is not proved; closures in function-typed positions are a known finding.',
+    design_ref="DESIGN.md §4 C08",
+    note=TRUST + " Sem/GoSem.v is a model of Go (slices immutable, no floats, one goroutine schedule); Sem/Src.v is the source-level meaning; both reproduce the recorded real-Go output of 63-66 corpus programs. This is validation per program, not a proof about all programs.",
+)
+CLAIMED["C09"] = dict(
+    category="translation_validation",
+    technique="per-program translation validation with two Coq semantics (Sem/Src.v on the real typed source tree, Sem/GoSem.v on the real emitted Go AST) evaluated in coqc; both semantics validated against outputs recorded from real Go; general pass-correctness theorems open",
+    text="Programs with printing probes around operands, arguments, conditions and branches, a systematic matrix of unit-typed effect expressions x statement positions, Ref updates and failing operations are compiled; order and multiplicity of effects and the failure point of the real Go AST (after ANF, Go generation, DCE) must equal the typed source program's under the Coq semantics. anf_correct/dce_correct are not proved; && / || evaluation of both operands is a known finding.",
+    design_ref="DESIGN.md §4 C09",
+    note=TRUST + " Sem/GoSem.v is a model of Go (slices immutable, no floats, one goroutine schedule); Sem/Src.v is the source-level meaning; both reproduce the recorded real-Go output of 63-66 corpus programs. This is validation per program, not a proof about all programs.",
+)
+
 NOT_YET = {}
 
 def main():
